@@ -817,6 +817,12 @@ func main() {
 	w("")
 
 	// ---- actor facts
+	w("/-- observerRunner.OnTableStateUpdated, statement by statement (registering a listener hands it nothing) -/")
+	w("def observerSubscribe : List String := %s", leanList(stmtSrcs(findFunc(obs, "observerRunner", "OnTableStateUpdated"))))
+	w("")
+	w("/-- playerRunner.UpdateTableState, statement by statement (the staleness filter) -/")
+	w("def playerUpdate : List String := %s", leanList(stmtSrcs(findFunc(playerR, "playerRunner", "UpdateTableState"))))
+	w("")
 	w("/-- observerRunner.UpdateTableState, statement by statement -/")
 	w("def observerUpdate : List String := %s", leanList(stmtSrcs(findFunc(obs, "observerRunner", "UpdateTableState"))))
 	conds, acts := hasActionChain(findFunc(playerR, "playerRunner", "automate"))
